@@ -18,7 +18,6 @@ impl StatusCode {
     pub const BadRequestTooLarge: StatusCode = StatusCode { bits: 0x80B8_0000 };
 }
 pub struct DecodingOptions { pub max_chunk_count: usize, pub max_message_size: usize }
-pub struct MessageChunkHeader { pub is_final: MessageIsFinalType }
 pub struct MessageChunk { pub data: Vec<u8> }
 impl MessageChunk {
     #[verifier::external_body]
@@ -138,7 +137,7 @@ def build(manifest):
                 decreases self.pending_chunks@.len() - idx_pending_chunk,''')
         f = splice_at(f, r'^\s*pending_size \+= ', '                proof { lemma_total_step(self.pending_chunks@, idx_pending_chunk as int); lemma_total_mono(self.pending_chunks@, idx_pending_chunk as int + 1); }', before=True)
         f = splice_at(f, r'^\s*self\.pending_chunks\.push\(chunk\);', '            proof { assert(self.pending_chunks@.subrange(0, self.pending_chunks@.len() as int) =~= self.pending_chunks@); lemma_total_push(self.pending_chunks@, chunk); }', before=True)
-    types = '\n'.join([mc.enum('MessageIsFinalType'), tt.struct('TcpTransport', keep_fields=['secure_channel', 'pending_chunks'])])
+    types = '\n'.join([mc.enum('MessageChunkType'), mc.enum('MessageIsFinalType'), mc.struct('MessageChunkHeader'), tt.struct('TcpTransport', keep_fields=['secure_channel', 'pending_chunks'])])
     a = Asm()
     a.add('use vstd::prelude::*;\n' + macro_def(lb, 'trace_read_lock') + '\n' + macro_def(lb, 'trace_write_lock') + '\nverus! {\nglobal size_of usize == 8;\n', 'prelude', 'env')
     a.add(norm_vis(types), 'types', 'env')
